@@ -168,55 +168,62 @@ Definition four_digits (t : str) : option (str * str) :=
   | _ => None
   end.
 
+(* t = c :: r ?  (tests by N.eqb, never by matching on numerals) *)
+Definition hd_is (c : N) (t : str) : option str :=
+  match t with x :: r => if x =? c then Some r else None | [] => None end.
+
+(* a dot and digits *)
+Definition dot_digits (t : str) : option (str * str) :=
+  match hd_is 46 t with
+  | Some r => let '(ds, r') := span is_digit r in
+              match ds with [] => None | _ => Some (46 :: ds, r') end
+  | None => None
+  end.
+
 (* the optional fraction group: an optional colon, a dot, digits - or nothing at all *)
 Definition opt_frac (t : str) : str * str :=
-  let try (pre : str) (r : str) : option (str * str) :=
-    match r with
-    | 46 :: r' => let '(ds, r'') := span is_digit r' in
-                  match ds with [] => None | _ => Some (pre ++ 46 :: ds, r'') end
-    | _ => None
-    end in
+  match (match hd_is 58 t with
+         | Some r => match dot_digits r with Some (f, r') => Some (58 :: f, r') | None => None end
+         | None => None
+         end) with
+  | Some x => x
+  | None => match dot_digits t with Some x => x | None => ([], t) end
+  end.
+
+(* e|E, optional sign, digits *)
+Definition exp_part (t : str) : option (str * str) :=
   match t with
-  | 58 :: r => match try [58] r with
-               | Some x => x
-               | None => match try [] t with Some x => x | None => ([], t) end
-               end
-  | _ => match try [] t with Some x => x | None => ([], t) end
+  | e :: r =>
+      if (e =? 101) || (e =? 69) then
+        let signed :=
+          match r with
+          | sg :: r' => if (sg =? 43) || (sg =? 45) then
+                          let '(ds, r'') := span is_digit r' in
+                          match ds with [] => None | _ => Some (e :: sg :: ds, r'') end
+                        else None
+          | [] => None
+          end in
+        match signed with
+        | Some x => Some x
+        | None => let '(ds, r') := span is_digit r in
+                  match ds with [] => None | _ => Some (e :: ds, r') end
+        end
+      else None
+  | [] => None
   end.
 
 (* the optional exponent group: optional colon, e|E, optional sign, digits *)
 Definition opt_exp (t : str) : str * str :=
-  let try (pre : str) (r : str) : option (str * str) :=
-    match r with
-    | e :: r' =>
-        if (e =? 101) || (e =? 69) then
-          let with_sign :=
-            match r' with
-            | sg :: r'' => if (sg =? 43) || (sg =? 45) then
-                             let '(ds, r3) := span is_digit r'' in
-                             match ds with [] => None | _ => Some (pre ++ e :: sg :: ds, r3) end
-                           else None
-            | [] => None
-            end in
-          match with_sign with
-          | Some x => Some x
-          | None => let '(ds, r3) := span is_digit r' in
-                    match ds with [] => None | _ => Some (pre ++ e :: ds, r3) end
-          end
-        else None
-    | [] => None
-    end in
-  match t with
-  | 58 :: r => match try [58] r with
-               | Some x => x
-               | None => match try [] t with Some x => x | None => ([], t) end
-               end
-  | _ => match try [] t with Some x => x | None => ([], t) end
+  match (match hd_is 58 t with
+         | Some r => match exp_part r with Some (f, r') => Some (58 :: f, r') | None => None end
+         | None => None
+         end) with
+  | Some x => x
+  | None => match exp_part t with Some x => x | None => ([], t) end
   end.
 
 (* NUMBER_RE after the "n:" prefix: (token handed to float(), unit) *)
-Definition match_number (t : str) : option (str * option str) :=
-  let '(sign, t1) := match t with 45 :: r => ([45], r) | _ => ([], t) end in
+Definition number_body (sign t1 : str) : option (str * option str) :=
   let '(ds, t2) := span is_digit t1 in
   match ds with
   | [] => None
@@ -224,12 +231,17 @@ Definition match_number (t : str) : option (str * option str) :=
       let '(fr, t3) := opt_frac t2 in
       let '(ex, t4) := opt_exp t3 in
       let tok := sign ++ ds ++ fr ++ ex in
-      match t4 with
-      | 58 :: 32 :: u => Some (tok, Some u)
-      | 32 :: u => Some (tok, Some u)
-      | _ => if at_end t4 then Some (tok, None) else None
+      match (match hd_is 58 t4 with Some r => hd_is 32 r | None => None end) with
+      | Some u => Some (tok, Some u)
+      | None =>
+          match hd_is 32 t4 with
+          | Some u => Some (tok, Some u)
+          | None => if at_end t4 then Some (tok, None) else None
+          end
       end
   end.
+Definition match_number (t : str) : option (str * option str) :=
+  match hd_is 45 t with Some r => number_body [45] r | None => number_body [] t end.
 
 Definition is_ref_char (c : N) : bool :=
   ((48 <=? c) && (c <=? 57)) || ((65 <=? c) && (c <=? 90)) || ((97 <=? c) && (c <=? 122))
@@ -240,9 +252,9 @@ Definition match_ref (t : str) : option (str * option str) :=
   let '(nm, r) := span is_ref_char t in
   match nm with
   | [] => None
-  | _ => match r with
-         | 32 :: d => Some (nm, Some d)
-         | _ => if at_end r then Some (nm, None) else None
+  | _ => match hd_is 32 r with
+         | Some d => Some (nm, Some d)
+         | None => if at_end r then Some (nm, None) else None
          end
   end.
 
@@ -255,9 +267,13 @@ Definition valid_date (y m d : N) : bool :=
 (* DATE_RE after "d:" *)
 Definition match_date (t : str) : option (res hval) :=
   match four_digits t with
-  | Some (y, 45 :: t1) =>
+  | Some (y, t0) =>
+    match hd_is 45 t0 with
+    | Some t1 =>
       match two_digits t1 with
-      | Some (m, 45 :: t2) =>
+      | Some (m, t1') =>
+        match hd_is 45 t1' with
+        | Some t2 =>
           match two_digits t2 with
           | Some (d, t3) =>
               if at_eol t3 then
@@ -266,9 +282,13 @@ Definition match_date (t : str) : option (res hval) :=
               else None
           | None => None
           end
-      | _ => None
+        | None => None
+        end
+      | None => None
       end
-  | _ => None
+    | None => None
+    end
+  | None => None
   end.
 
 Fixpoint split_dot1 (t : str) : str * option str :=
@@ -285,22 +305,30 @@ Definition usec_of (frac : str) : N :=
   let six := firstn 6 frac in
   int_of_digits six * 10 ^ N.of_nat (6 - length six).
 
+(* the seconds group: [colon] colon dd [fraction]; gives (text after the colons, rest) *)
+Definition secs_part (t : str) : option (str * str * str) :=      (* (prefix colons, seconds text, rest) *)
+  let try (pre : str) (r : str) :=
+    match two_digits r with
+    | Some (ss, r') => let '(fr, r'') := opt_frac r' in Some (pre, ss ++ fr, r'')
+    | None => None
+    end in
+  match hd_is 58 t with
+  | Some r1 =>
+      match (match hd_is 58 r1 with Some r2 => try [58; 58] r2 | None => None end) with
+      | Some x => Some x
+      | None => try [58] r1
+      end
+  | None => None
+  end.
+
 (* TIME_RE after "h:" *)
 Definition match_time (t : str) : option (res hval) :=
   match two_digits t with
-  | Some (hh, 58 :: t1) =>
+  | Some (hh, t0) =>
+    match hd_is 58 t0 with
+    | Some t1 =>
       match two_digits t1 with
       | Some (mm, t2) =>
-          let secs : option (str * str) :=
-            let try (r : str) := match two_digits r with
-                                 | Some (ss, r') => let '(fr, r'') := opt_frac r' in Some (ss ++ fr, r'')
-                                 | None => None
-                                 end in
-            match t2 with
-            | 58 :: 58 :: r => match try r with Some x => Some x | None => try (58 :: r) end
-            | 58 :: r => try r
-            | _ => None
-            end in
           let finish (second : option str) (rest : str) : option (res hval) :=
             if at_eol rest then
               let h := int_of_digits hh in let mi := int_of_digits mm in
@@ -314,113 +342,122 @@ Definition match_time (t : str) : option (res hval) :=
                   Some (if (h <=? 23) && (mi <=? 59) && (s <=? 59) then Ok (VTime h mi s us) else Raise ValueError)
               end
             else None in
-          match secs with
-          | Some (sec, rest) => match finish (Some sec) rest with
-                                | Some x => Some x
-                                | None => finish None t2
-                                end
+          match secs_part t2 with
+          | Some (_, sec, rest) => match finish (Some sec) rest with
+                                   | Some x => Some x
+                                   | None => finish None t2
+                                   end
           | None => finish None t2
           end
       | None => None
       end
-  | _ => None
+    | None => None
+    end
+  | None => None
   end.
 
 Definition is_tzname_char (c : N) : bool :=
   ((48 <=? c) && (c <=? 57)) || ((65 <=? c) && (c <=? 90)) || ((97 <=? c) && (c <=? 122))
   || (c =? 45) || (c =? 43) || (c =? 95).
 
+(* the offset group: [colon] z|Z, or sign digits [colon] [digits] *)
+Definition tz_part (t : str) : option (str * str) :=
+  let zed (pre : str) (r : str) :=
+    match r with
+    | z :: r' => if (z =? 122) || (z =? 90) then Some (pre ++ [z], r') else None
+    | [] => None
+    end in
+  match (match hd_is 58 t with Some r => zed [58] r | None => None end) with
+  | Some x => Some x
+  | None =>
+      match zed [] t with
+      | Some x => Some x
+      | None =>
+          match t with
+          | z :: r =>
+              if (z =? 43) || (z =? 45) then
+                let '(d1, r1) := span is_digit r in
+                match d1 with
+                | [] => None
+                | _ => match hd_is 58 r1 with
+                       | Some r2 => let '(d2', r3) := span is_digit r2 in Some (z :: d1 ++ 58 :: d2', r3)
+                       | None => Some (z :: d1, r1)
+                       end
+                end
+              else None
+          | [] => None
+          end
+      end
+  end.
+
 (* DATETIME_RE after "t:": (text of group 1, zone name) *)
 Definition match_datetime (t : str) : option (str * option str) :=
   match four_digits t with
-  | Some (y, 45 :: t1) =>
-    match two_digits t1 with
-    | Some (m, 45 :: t2) =>
-      match two_digits t2 with
-      | Some (d, 84 :: t3) =>
-        match two_digits t3 with
-        | Some (hh, 58 :: t4) =>
-          match two_digits t4 with
-          | Some (mm, t5) =>
-              (* the seconds group, required: optional colon, colon, two digits, optional fraction *)
-              let secs : option (str * str) :=
-                let try (pre : str) (r : str) := match two_digits r with
-                                                 | Some (ss, r') => let '(fr, r'') := opt_frac r' in Some (pre ++ ss ++ fr, r'')
-                                                 | None => None
-                                                 end in
-                match t5 with
-                | 58 :: 58 :: r => match try [58; 58] r with Some x => Some x | None => try [58] (58 :: r) end
-                | 58 :: r => try [58] r
-                | _ => None
-                end in
-              match secs with
-              | None => None
-              | Some (sec, t6) =>
-                  (* the offset, required: [colon] z|Z, or sign digits [colon] [digits] *)
-                  let tz : option (str * str) :=
-                    match t6 with
-                    | 58 :: z :: r => if (z =? 122) || (z =? 90) then Some ([58; z], r) else None
-                    | z :: r =>
-                        if (z =? 122) || (z =? 90) then Some ([z], r)
-                        else if (z =? 43) || (z =? 45) then
-                          let '(d1, r1) := span is_digit r in
-                          match d1 with
-                          | [] => None
-                          | _ => match r1 with
-                                 | 58 :: r2 => let '(d2, r3) := span is_digit r2 in Some (z :: d1 ++ 58 :: d2, r3)
-                                 | _ => Some (z :: d1, r1)
-                                 end
-                          end
-                        else None
-                    | [] => None
-                    end in
-                  match tz with
-                  | None => None
-                  | Some (tzt, t7) =>
-                      let head := y ++ 45 :: m ++ 45 :: d ++ 84 :: hh ++ 58 :: mm ++ sec ++ tzt in
-                      let name_after (r : str) : option (option str * str) :=
-                        let '(nm, r') := span is_tzname_char r in
-                        match nm with [] => None | _ => Some (Some nm, r') end in
-                      let with_name :=
-                        match t7 with
-                        | 58 :: 32 :: r => name_after r
-                        | 32 :: r => name_after r
-                        | _ => None
-                        end in
-                      match with_name with
-                      | Some (nm, r) => if at_eol r then Some (head, nm)
-                                        else if at_eol t7 then Some (head, None) else None
-                      | None => if at_eol t7 then Some (head, None) else None
-                      end
-                  end
-              end
+  | Some (y, t0) =>
+  match hd_is 45 t0 with
+  | Some t1 =>
+  match two_digits t1 with
+  | Some (m, t1') =>
+  match hd_is 45 t1' with
+  | Some t2 =>
+  match two_digits t2 with
+  | Some (d, t2') =>
+  match hd_is 84 t2' with
+  | Some t3 =>
+  match two_digits t3 with
+  | Some (hh, t3') =>
+  match hd_is 58 t3' with
+  | Some t4 =>
+  match two_digits t4 with
+  | Some (mm, t5) =>
+      match secs_part t5 with
+      | None => None
+      | Some (pre, sec, t6) =>
+          match tz_part t6 with
           | None => None
+          | Some (tzt, t7) =>
+              let head := y ++ 45 :: m ++ 45 :: d ++ 84 :: hh ++ 58 :: mm ++ pre ++ sec ++ tzt in
+              let name_after (r : str) : option (option str * str) :=
+                let '(nm, r') := span is_tzname_char r in
+                match nm with [] => None | _ => Some (Some nm, r') end in
+              let with_name :=
+                match (match hd_is 58 t7 with Some r => hd_is 32 r | None => None end) with
+                | Some r => name_after r
+                | None => match hd_is 32 t7 with Some r => name_after r | None => None end
+                end in
+              match with_name with
+              | Some (nm, r) => if at_eol r then Some (head, nm)
+                                else if at_eol t7 then Some (head, None) else None
+              | None => if at_eol t7 then Some (head, None) else None
+              end
           end
-        | _ => None
-        end
-      | _ => None
       end
-    | _ => None
-    end
-  | _ => None
-  end.
+  | None => None end
+  | None => None end
+  | None => None end
+  | None => None end
+  | None => None end
+  | None => None end
+  | None => None end
+  | None => None end
+  | None => None end.
 
 (* COORD_RE after "c:" *)
 Definition coord_part (t : str) : str * str :=
-  let '(sg, t1) := match t with 45 :: r => ([45], r) | _ => ([], t) end in
+  let '(sg, t1) := match hd_is 45 t with Some r => ([45], r) | None => ([], t) end in
   let '(d1, t2) := span is_digit t1 in
-  let '(dot, t3) := match t2 with 46 :: r => ([46], r) | _ => ([], t2) end in
-  let '(d2, t4) := span is_digit t3 in
-  (sg ++ d1 ++ dot ++ d2, t4).
+  let '(dot, t3) := match hd_is 46 t2 with Some r => ([46], r) | None => ([], t2) end in
+  let '(d2', t4) := span is_digit t3 in
+  (sg ++ d1 ++ dot ++ d2', t4).
 Definition has_digit (t : str) : bool := existsb is_digit t.
 Definition match_coord (t : str) : option (res hval) :=
   let '(la, t1) := coord_part t in
-  match t1 with
-  | 44 :: t2 =>
+  match hd_is 44 t1 with
+  | Some t2 =>
       let '(lo, t3) := coord_part t2 in
       if at_eol t3 then Some (if has_digit la && has_digit lo then Ok (VCoord la lo) else Raise ValueError)
       else None
-  | _ => None
+  | None => None
   end.
 
 Fixpoint split_colon1 (t : str) : str * option str :=
